@@ -271,7 +271,10 @@ def _mutations(doc):
             add('hist-under-orthogonal', i, lambda d, ss, x: x['parallel states'].append(
                 {'name': 'zz_hist', 'type': 'shallow history'}))
         # transitions
-        for k, t in enumerate(s.get('transitions') or []):
+        trs_ = s.get('transitions')
+        for k, t in enumerate(trs_ if isinstance(trs_, list) else []):
+            if not isinstance(t, dict):
+                continue      # (an earlier fault operator already broke this entry)
             add('target-unknown', i,
                 lambda d, ss, x, k=k: x['transitions'][k].__setitem__('target', 'no such state'))
             if t.get('target') is not None:
